@@ -282,7 +282,7 @@ func main() {
 	}
 
 	// ---------------------------------------------------------------- check-only: return deposit
-	for k := 0; k < run.N(500, 20000); k++ {
+	for k := 0; k < run.N(500, 10000); k++ {
 		r := rng.Fork()
 		cr := r.Bool()
 		amt := boundary
@@ -385,7 +385,7 @@ func main() {
 				avs.Add(avs, exact{b(t), b(l), b(p)}.avail())
 			}
 			w := new(big.Int).Sub(sumBig(refs), sumBig(change))
-			if w.Cmp(avs) > 0 || sumBig(outs).Cmp(avs) >= 0 {
+			if w.Cmp(avs) > 0 || sumBig(outs).Cmp(avs) > 0 {
 				sig := "ReturnDeposit:accepted-overdraw:amounts>=2^62"
 				real := true
 				for _, l := range [][]int64{refs, change, outs} {
@@ -416,7 +416,7 @@ func main() {
 	}
 
 	// ---------------------------------------------------------------- sequences on one deposit account
-	for k := 0; k < run.N(200, 8000); k++ {
+	for k := 0; k < run.N(200, 4000); k++ {
 		r := rng.Fork()
 		cr := r.Chance(40)
 		amt := small
@@ -626,7 +626,7 @@ func main() {
 
 	// corpus: the wrap witnesses of the vote check (4 x 2^62 = 0 mod 2^64; 3 x 2^62 < 0)
 	corpusVotes := [][]int64{{1 << 62, 1 << 62, 1 << 62, 1 << 62}, {1 << 62, 1 << 62, 1 << 62}, {1 << 62, 1 << 62}, {1<<63 - 1, 1<<63 - 1, 2}, {100}, {60, 41}, {60, 40}}
-	nVote := run.N(400, 20000)
+	nVote := run.N(400, 10000)
 	for k := 0; k < nVote+len(corpusVotes); k++ {
 		r := rng.Fork()
 		code, addr := newStake()
@@ -673,7 +673,7 @@ func main() {
 		delete(dstate.DposV2VoteRights, addr)
 		delete(dstate.UsedDposV2Votes, addr)
 	}
-	for k := 0; k < run.N(300, 20000); k++ {
+	for k := 0; k < run.N(300, 10000); k++ {
 		r := rng.Fork()
 		code, addr := newStake()
 		amt := boundary
@@ -728,7 +728,7 @@ func main() {
 	}
 
 	// sequences on one stake address
-	for k := 0; k < run.N(200, 8000); k++ {
+	for k := 0; k < run.N(200, 4000); k++ {
 		r := rng.Fork()
 		code, addr := newStake()
 		amt := small
